@@ -41,6 +41,7 @@ ASSUMPTIONS = [
     "an element counts as masked if its mask bit is set or it is the np.ma.masked constant",
     "get_from_index is only called for present elements; linear indices are not probed out of range",
     "slice keys in dump store the same value at every selected external index (both backends document this)",
+    "stored values include None (about one in four): a stored None is present and unmasked",
 ]
 
 
@@ -158,11 +159,12 @@ class Model:
         return tuple(next(it) if m else fill for m in self.smask)
 
     def value(self, n):
+        # None is a legitimate stored value (a user function may return it): present, not masked
         if not self.internal:
-            return f"v{n}"
+            return None if n % 4 == 0 else f"v{n}"
         arr = np.empty(self.internal, dtype=object)
-        for idx in np.ndindex(*self.internal):
-            arr[idx] = f"v{n}." + ".".join(map(str, idx))
+        for j, idx in enumerate(np.ndindex(*self.internal)):
+            arr[idx] = None if (n + j) % 5 == 0 else f"v{n}." + ".".join(map(str, idx))
         return arr
 
     def dump(self, ext_key, value):
